@@ -276,6 +276,21 @@ func r12e(c *an.Ctx) {
 			}
 		})
 		c.Ob("(*core/controlcommands.Servent).ProcessResponse|response-before-done", fn.Pos(), st != nil && snd != nil && an.Dominates(st, snd), "the response must be stored in the call before its completion is signalled")
+		// the hand-over must be a blocking send: with a non-blocking one (select with default) a reply that is
+		// processed before RunCommand reaches its select is claimed, removed from pending and then dropped
+		c.Subject()
+		nonBlocking := false
+		an.Instrs(fn, func(in ssa.Instruction) {
+			if sel, ok := in.(*ssa.Select); ok {
+				for _, sst := range sel.States {
+					if sst.Dir == types.SendOnly && isFieldNamed(sst.Chan, "Done") && !sel.Blocking {
+						nonBlocking = true
+					}
+				}
+			}
+		})
+		c.Ob("(*core/controlcommands.Servent).ProcessResponse|blocking-handover", fn.Pos(), snd != nil && !nonBlocking,
+			"the completion of a claimed call must be handed over with a blocking send on Done (non-blocking select: %v): otherwise a reply arriving while the command is still being sent is consumed and lost, and the caller reports a timeout for a target that answered", nonBlocking)
 	}
 	// CallId has both fields and each literal fills both
 	cid := c.NamedType(ccPkg, "CallId")
